@@ -211,6 +211,55 @@ fn fill_drain_refill(cfg: &Cfg, apps: &Arc<Vec<Vec<L>>>, rep: &mut Report) -> u6
     execs
 }
 
+/// Directed family: the table is full; a response arrives whose id is not outstanding but LOOKS like the newest outstanding
+/// one (every look-alike kind of `explore::near_id`, success and error class). It is a response to nothing: no event, the
+/// call is refused, no slot is freed (the next send is refused); afterwards every own response frees exactly one slot.
+fn lookalike_ids(cfg: &Cfg, apps: &Arc<Vec<Vec<L>>>, rep: &mut Report) -> u64 {
+    let limit = cfg.max_tx;
+    let menu = reply_menu(cfg);
+    let ok = menu[0];
+    let err = menu.iter().copied().find(|r| matches!(r.class, super::server::RClass::Error(c) if c != 401 && c != 438)).unwrap_or(ok);
+    let mut execs = 0;
+    for k in 0..explore::NEAR_KINDS {
+        for reply in [ok, err] {
+            for which in [limit - 1, 0] {
+                execs += 1;
+                let proto = Mon::new(3 * limit + 4);
+                let mut run = explore::start(cfg, apps, &proto);
+                let mut hist: Vec<Event> = vec![];
+                let mut go = |run: &mut explore::Run, hist: &mut Vec<Event>, ev: Event, rep: &mut Report| {
+                    hist.push(ev.clone());
+                    let h = hist.clone();
+                    explore::step(run, &ev, Some((rep, &h)))
+                };
+                for _ in 0..limit {
+                    go(&mut run, &mut hist, Event::Send { app: 0 }, rep);
+                }
+                let o = go(&mut run, &mut hist, Event::Deliver { to: Target::Near(which, k), reply }, rep);
+                if !matches!(o.res, CallRes::RecvErr(_)) || !o.events.is_empty() {
+                    rep.violate(
+                        "response-with-a-lookalike-id-is-taken",
+                        format!("look-alike kind {} of request T{}: {:?} events {:?}", k, which, o.res, super::world::show_events(&o.events)),
+                        json!({"config": cfg.show(), "events": explore::show_history(&hist), "history": hist}),
+                    );
+                } else {
+                    rep.sym("lookalike-id-discarded");
+                }
+                // the table is still full (the monitor checks the refusal), then every own response frees one slot
+                go(&mut run, &mut hist, Event::Send { app: 0 }, rep);
+                for i in run.w.awaiting() {
+                    go(&mut run, &mut hist, Event::Deliver { to: Target::Req(i), reply: ok }, rep);
+                    go(&mut run, &mut hist, Event::Send { app: 0 }, rep);
+                    go(&mut run, &mut hist, Event::Send { app: 0 }, rep);
+                }
+                rep.transitions += hist.len() as u64;
+                rep.states += hist.len() as u64;
+            }
+        }
+    }
+    execs
+}
+
 pub fn run(ctx: &RunCtx) -> i32 {
     let thorough = ctx.thorough();
     let apps: Arc<Vec<Vec<L>>> = Arc::new(vec![vec![]]);
@@ -253,6 +302,23 @@ pub fn run(ctx: &RunCtx) -> i32 {
         r.sym("fill-drain-refill");
         shared.merge(r);
     });
+    // look-alike ids
+    let mut lcfgs = vec![];
+    for limit in [1usize, 2, 3, 10] {
+        for (t, m, f) in [
+            (Transport::Unreliable { rto_ms: 500, gran_ms: 1, rm: 16, rc: 7 }, Mech::None, false),
+            (Transport::Reliable { timeout_ms: 39500 }, Mech::ShortTerm(Some(false)), true),
+            (Transport::Reliable { timeout_ms: 39500 }, Mech::None, true),
+        ] {
+            lcfgs.push(Cfg { transport: t, mech: m, fingerprint: f, max_tx: limit, cred: 0, method: 1 });
+        }
+    }
+    lcfgs.par_iter().for_each(|cfg| {
+        let mut r = Report::new();
+        let n = lookalike_ids(cfg, &apps, &mut r);
+        r.add_extra("lookalike_id_executions", n);
+        shared.merge(r);
+    });
     // a limit above 255 (a narrower counter would wrap): fill 300, probe, let all expire in one timer call, refill
     {
         let cfg = Cfg { transport: Transport::Unreliable { rto_ms: 100, gran_ms: 1, rm: 2, rc: 2 }, mech: Mech::None, fingerprint: false, max_tx: 300, cred: 0, method: 1 };
@@ -293,9 +359,9 @@ pub fn run(ctx: &RunCtx) -> i32 {
         rep,
         Finish {
             level: "model_checking",
-            rule: "breadth-first exploration of the real client for limits 0..=4 (depth 2*limit+4, capped at 9 quick / 11 thorough) x 4 transport/mechanism configurations over {Send (also probing a full table), Send with a 16-byte buffer (must fail without taking a slot), Indicate, Timer, AdvanceTo(next point, +1 ms, beyond), Deliver(an indication / a request carrying the id of an awaiting request), Deliver(each of the first two awaiting requests x reply menu incl. auth-failing, 401, 438), Deliver(unknown id), undecodable bytes}; default limit 10: directed fill-to-limit(+1 probe) / drain / refill executions for every pair of final-outcome kinds and every split of the ten requests between them, two rounds; limit 300: fill, probe, expire all in one timer call, refill. Monitor: send_request refused iff independently counted unfinished requests == limit; a refusal yields no event and an identical snapshot".into(),
+            rule: "breadth-first exploration of the real client for limits 0..=4 (depth 2*limit+4, capped at 9 quick / 11 thorough) x 4 transport/mechanism configurations over {Send (also probing a full table), Send with a 16-byte buffer (must fail without taking a slot), Indicate, Timer, AdvanceTo(next point, +1 ms, beyond), Deliver(an indication / a request carrying the id of an awaiting request), Deliver(each of the first two awaiting requests x reply menu incl. auth-failing, 401, 438), Deliver(unknown id), undecodable bytes}; default limit 10: directed fill-to-limit(+1 probe) / drain / refill executions for every pair of final-outcome kinds and every split of the ten requests between them, two rounds; limits 1, 2, 3, 10 x 3 configurations: table full, a success / error response whose id is one of 12 look-alikes of the newest / oldest outstanding id (same value under a fold of the 96 bits into 64 or 32 bits, a prefix, a suffix, byte- and word-order-insensitive digests, byte sums; plus an ordinary two-byte corruption) must be refused without events and free no slot, then every own response frees exactly one; limit 300: fill, probe, expire all in one timer call, refill. Monitor: send_request refused iff independently counted unfinished requests == limit; a refusal yields no event and an identical snapshot".into(),
             assumptions: vec!["a final outcome is what the application observes (response delivered, TransactionFailed, Retry)".into()],
-            required_symbols: vec!["Send", "Indicate", "Timer", "Deliver", "refused-at-limit", "accepted-below-limit", "fill-drain-refill", "bfs-configs", "failed-send-clean", "limit-300"],
+            required_symbols: vec!["Send", "Indicate", "Timer", "Deliver", "refused-at-limit", "accepted-below-limit", "fill-drain-refill", "bfs-configs", "failed-send-clean", "limit-300", "lookalike-id-discarded"],
             min_outcomes: 6,
             exhaustive: true,
             bounds: json!({"limits": [0,1,2,3,4,10]}),
